@@ -30,7 +30,7 @@ ASSUMPTIONS = simlib.SIM_ASSUMPTIONS + [
     "voltages 208/240/120 V, period 5 min concrete; one scheduler call from an arbitrary reachable pre-state (any accepted previous pilots, any battery power limits, any requested energies with remaining demand > 1e-3 kWh, any stored rampdown bounds in [0, max pilot]); session ids differ from station ids",
     "sorting keys that depend on symbolic energies (laxity, remaining processing time) fork on every comparison: all orders are explored",
 ]
-EXPECT_GLOBAL_TAGS = ("greedy", "rr", "bisection", "discrete_fallback_or_level", "finished_session_gets_0", "vacant_station_gets_0", "sim:ran")
+EXPECT_GLOBAL_TAGS = ("greedy", "rr", "bisection", "discrete_fallback_or_level", "finished_session_gets_0", "vacant_station_gets_0", "sim:ran", "history:foreign", "history:second_call")
 SLACK = 1e-9 * 100
 
 
@@ -50,7 +50,7 @@ class CustomEstimator:
         self.est = Est()
 
 
-def h_state(cx, stations, rows, sessions, algo, sort, estimator, uninterrupted, inc, vacate, limit_hi, finished=(), finite_prev=(8,)):
+def h_state(cx, stations, rows, sessions, algo, sort, estimator, uninterrupted, inc, vacate, limit_hi, finished=(), finite_prev=(8,), history=None):
     env.install(cx)
     import numpy as np
     import acnportal.algorithms as ALG
@@ -72,7 +72,10 @@ def h_state(cx, stations, rows, sessions, algo, sort, estimator, uninterrupted, 
             return ALG.SortedSchedulingAlgo(alglib.sort_fn(sort), **kw)
         return ALG.RoundRobin(alglib.sort_fn(sort), continuous_inc=inc, **kw)
 
-    sc = alglib.build(cx, stations, rows, sessions, factory, limit_hi=limit_hi, unplugged=vacate, sym_battery=(estimator == "rampdown"), finite_prev=finite_prev)
+    sc = alglib.build(cx, stations, rows, sessions, factory, limit_hi=limit_hi, unplugged=vacate, sym_battery=(estimator == "rampdown"), finite_prev=finite_prev,
+                      warmup=(history == "second_call"), foreign=(history == "foreign"))
+    if history:
+        cx.tag("history:" + history)
     cx.tag(algo)
     n = len(stations)
     est = est_holder["e"]
@@ -271,6 +274,15 @@ def jobs(tier):
         finished=(0,), limit_hi=60.0)
     add("greedy[vacated_station,fcfs]", stations=[(c, 208, 0), ("CC", 208, 0), ("AV5", 208, 0)], rows=[(1, 1, 1)], sessions=SESS3b, algo="greedy", sort="fcfs", estimator=None, uninterrupted=False, vacate=(1,), limit_hi=60.0)
     add("rr[vacated_station,lrpt]", stations=[(c, 208, 0), ("CC", 208, 0), ("AV5", 208, 0)], rows=[(1, 1, 1)], sessions=SESS3b, algo="rr", sort="fcfs" if q else "lrpt", estimator="rampdown", uninterrupted=True, vacate=(0,), limit_hi=60.0)
+    # history: the judged call is preceded (a) by an unrelated simulation in the same process on a network with the same ids and
+    # coefficient rows but other phase angles / voltages / limits, (b) by a call of the same algorithm object on the same
+    # network, after which every constraint is updated through update_constraint
+    hist = [("greedy", 0, "fcfs", "foreign"), ("rr", 2, "edf", "foreign"), ("greedy", 2, "edf", "second_call"), ("rr", 0, "lcfs", "second_call")]
+    if not q:
+        hist += [(a, mi, s_, h) for a in ("greedy", "rr") for mi in (0, 1, 2) for s_ in ("fcfs", "llf") for h in ("foreign", "second_call")]
+    for a, mi, s_, h in hist:
+        st, rows, lh = mixes2[mi]
+        add("%s[mix%d,%s,history=%s]" % (a, mi, s_, h), stations=st, rows=rows, sessions=SESS2, algo=a, sort=s_, estimator=None, uninterrupted=(h == "foreign"), limit_hi=lh, inc=0.05, history=h)
     if not q:
         add("greedy[full AeroVironment + C0.64]", stations=[("C0.64", 208, 0), ("AV", 208, 0)], rows=[(1, 1)], sessions=SESS2, algo="greedy", sort="fcfs", estimator="rampdown", uninterrupted=True, limit_hi=40.0, _cost=300)
         add("rr[full AeroVironment + C0.64]", stations=[("C0.64", 208, 0), ("AV", 208, 0)], rows=[(1, 1)], sessions=SESS2, algo="rr", sort="fcfs", estimator=None, uninterrupted=False, inc=0.07, limit_hi=40.0, _cost=300)
